@@ -51,11 +51,14 @@ vars == <<i, bad, seen, cnt>>
 
 Mismatch(a, b) == {f \in FieldNames : a[f] # b[f]}
 
-\* The re-encoding reproduces type t and body.  Its header is read in either form: a re-encoded
-\* length octet may have the value 1 (a received 3-octet length announcing 1 is kept by Pack() of
-\* the fixed-size packets) - the length field itself is an allowed difference.
-RepackOK(rp, t, body) ==
-  \E h \in {2, 4} : /\ Len(rp) >= h /\ (h = 4 => rp[1] = 1)
+\* The re-encoding reproduces type t and body.  The length field itself is an allowed difference,
+\* but a re-encoding whose first octet is 1 is a 3-octet-length datagram for every receiver: it is
+\* read as a 2-octet header only when that 1 is the length value the datagram itself announced
+\* (lf; Pack() of the fixed-size packets keeps a received 3-octet length announcing 1).
+LenField(d) == IF Len(d) >= 1 /\ d[1] # 1 THEN d[1]
+               ELSE IF Len(d) >= 3 THEN d[2] * 256 + d[3] ELSE 0 - 1
+RepackOK(rp, t, body, lf) ==
+  \E h \in {2, 4} : /\ Len(rp) >= h /\ (h = 4 => rp[1] = 1) /\ (h = 2 => (rp[1] # 1 \/ lf = 1))
                     /\ rp[h] = t /\ SubSeq(rp, h + 1, Len(rp)) = body
 
 E(k, cls, t, f, d, p) == [k |-> k, cls |-> cls, t |-> t, f |-> f, d |-> d, p |-> p]
@@ -67,10 +70,10 @@ JudgeDg(d, o, pkt, rp) ==
          LET mm == Mismatch(r.pkt, pkt) IN
          IF mm # {} THEN (IF IsWrongOffsetDecode(d, pkt) THEN {E("body-offset", cls, t, "", d, Blank)}
                           ELSE {E("fields", cls, t, CHOOSE f \in mm : TRUE, d, Blank)})
-         ELSE IF ~RepackOK(rp, TypeOf(d), BodyOf(Encode(r.pkt))) THEN {E("repack", cls, t, "", d, Blank)}
+         ELSE IF ~RepackOK(rp, TypeOf(d), BodyOf(Encode(r.pkt)), LenField(d)) THEN {E("repack", cls, t, "", d, Blank)}
          ELSE {}
     [] o = 2 /\ ~r.ok ->
-         IF HdrOk(d) /\ RepackOK(rp, TypeOf(d), BodyOf(d))
+         IF HdrOk(d) /\ RepackOK(rp, TypeOf(d), BodyOf(d), LenField(d))
          THEN {E("accept-extra", cls, t, r.why, d, Blank)}
          ELSE IF IsWrongOffsetDecode(d, pkt) THEN {E("body-offset", cls, t, "", d, Blank)}
          ELSE {E("accept-nonlayout", cls, t, r.why, d, Blank)}
